@@ -169,27 +169,38 @@ type Queue struct {
 // EventRegister adds a waiter to the wait queue; the waiter will be notified
 // when at least one of the events specified in mask happens.
 func (q *Queue) EventRegister(e *Entry, mask EventMask) {
+	verifLock(&q.mu, true, "waiter.Register.lock")
 	q.mu.Lock()
+	verifYield("waiter.Register.locked")
 	e.mask = mask
+	verifYield("waiter.Register.mask")
 	q.list.PushBack(e)
+	verifYield("waiter.Register.pushed")
 	q.mu.Unlock()
 }
 
 // EventUnregister removes the given waiter entry from the wait queue.
 func (q *Queue) EventUnregister(e *Entry) {
+	verifLock(&q.mu, true, "waiter.Unregister.lock")
 	q.mu.Lock()
+	verifYield("waiter.Unregister.locked")
 	q.list.Remove(e)
+	verifYield("waiter.Unregister.removed")
 	q.mu.Unlock()
 }
 
 // Notify notifies all waiters in the queue whose masks have at least one bit
 // in common with the notification mask.
 func (q *Queue) Notify(mask EventMask) {
+	verifLock(&q.mu, false, "waiter.Notify.rlock")
 	q.mu.RLock()
+	verifYield("waiter.Notify.locked")
 	for it := q.list.Front(); it != nil; it = it.Next() {
 		e := it.(*Entry)
+		verifYield("waiter.Notify.entry")
 		if mask&e.mask != 0 {
 			e.Callback.Callback(e)
+			verifYield("waiter.Notify.called")
 		}
 	}
 	q.mu.RUnlock()
@@ -200,6 +211,7 @@ func (q *Queue) Notify(mask EventMask) {
 func (q *Queue) Events() EventMask {
 	ret := EventMask(0)
 
+	verifLock(&q.mu, false, "waiter.Events.rlock")
 	q.mu.RLock()
 	for it := q.list.Front(); it != nil; it = it.Next() {
 		e := it.(*Entry)
@@ -212,6 +224,7 @@ func (q *Queue) Events() EventMask {
 
 // IsEmpty returns if the wait queue is empty or not.
 func (q *Queue) IsEmpty() bool {
+	verifLock(&q.mu, true, "waiter.IsEmpty.lock")
 	q.mu.Lock()
 	defer q.mu.Unlock()
 
